@@ -129,7 +129,9 @@ def main():
     def on_alarm(signum, frame):
         raise TimeoutError("integration did not return within the watchdog time")
     signal.signal(signal.SIGALRM, on_alarm)
-    bases = [I.RK4Solver, I.SymplecticEulerSolver, I.ABAs5o6HSolver] + ([I.ImplicitMidpoint, I.RK45CKSolver] if req["tier"] != "quick" else [])
+    # (an adaptive base method -- RK45CK -- shortens the first pass now and then: defect F32 made the passes of the table cover different
+    # intervals in decreasing time)
+    bases = [I.RK4Solver, I.SymplecticEulerSolver, I.ABAs5o6HSolver, I.RK45CKSolver] + ([I.ImplicitMidpoint, I.DOPRI45] if req["tier"] != "quick" else [])
     for base in bases:
         for levels in ((4,) if req["tier"] == "quick" else (2, 3, 4, 5)):
             for span in ((0.0, 2.0), (0.0, -2.0)):
